@@ -234,7 +234,7 @@ func GenFields(t *rapid.T, depth int) []FieldDesc {
 func GenJSON(t *rapid.T, d TypeDesc) string {
 	switch d.K {
 	case "int", "int64":
-		return rapid.SampledFrom([]string{"0", "1", "-7", "12345"}).Draw(t, "iv")
+		return rapid.SampledFrom([]string{"0", "1", "-7", "12345", "9007199254740993", "-9223372036854775807"}).Draw(t, "iv")
 	case "uint8":
 		return rapid.SampledFrom([]string{"0", "9", "255"}).Draw(t, "uv")
 	case "string":
@@ -244,7 +244,7 @@ func GenJSON(t *rapid.T, d TypeDesc) string {
 	case "float64":
 		return rapid.SampledFrom([]string{"0", "1.5", "-2e3", "7"}).Draw(t, "fv")
 	case "raw", "any":
-		return rapid.SampledFrom([]string{`1`, `"x"`, `[1,{"a":null}]`, `{"k":[true]}`, `null`}).Draw(t, "rv")
+		return rapid.SampledFrom([]string{`1`, `"x"`, `[1,{"a":null}]`, `{"k":[true]}`, `null`, `12345678901234567890`, `1.0`, `1e2`, `"\u0041"`, `{"b":1,"a":2}`}).Draw(t, "rv")
 	case "slice":
 		n := rapid.IntRange(0, 3).Draw(t, "sl")
 		var xs []string
